@@ -46,7 +46,7 @@ def shards(tier):
 def required_counters(tier):
     return {'judged:exact-pixel': 5000, 'judged:exact-range': 5000, 'judged:full-pixel': 500, 'judged:empty-pixel': 500, 'judged:mask-sum': 50,
             'judged:convergence': 200, 'lane:circle-mask': 10, 'lane:ellipse-mask': 10, 'lane:circle-window': 10, 'lane:ellipse-window': 10,
-            'lane:nice-circle': 5, 'lane:nice-ellipse': 5, 'big-circle-rows': 2000, 'exact-with-subpixels-1': 20, 'result-edited-then-requested-again': 20}
+            'lane:nice-circle': 5, 'lane:nice-ellipse': 5, 'big-circle-rows': 2000, 'exact-with-subpixels-1': 20, 'float32-scalar-centres': 20, 'masks-of-excluded-regions': 20, 'result-edited-then-requested-again': 20}
 
 
 # ---------------------------------------------------------------------------
@@ -287,6 +287,26 @@ def _far_outside(x0, y0, x1, y1, margin_fn, band):
     return True
 
 
+def typed_centre(case, cx, cy, obs):
+    """the centre as the caller may hold it: Python floats, or NumPy float32 / float64 scalars (e.g. elements of a catalogue
+    column) - the region is then centred on exactly those values; and the mask describes the shape whatever the include flag."""
+    import regions
+    k = case['rs'] % 7
+    if k == 0:
+        cx, cy = float(np.float32(cx)), float(np.float32(cy))
+        c = regions.PixCoord(np.float32(cx), np.float32(cy))
+        obs.count('float32-scalar-centres')
+    elif k == 1:
+        c = regions.PixCoord(np.float64(cx), np.float64(cy))
+    else:
+        c = regions.PixCoord(cx, cy)
+    meta = None
+    if case['rs'] % 5 == 0:
+        meta = regions.RegionMeta({'include': False if case['rs'] % 2 else 0})
+        obs.count('masks-of-excluded-regions')
+    return cx, cy, c, meta
+
+
 def _deg(theta):
     d = math.degrees(theta)
     return float(round(d)) if abs(d - round(d)) < 1e-9 and round(d) % 90 == 0 else d
@@ -363,10 +383,11 @@ def run_case(case, obs):
         return run_big_circle(case, obs)
     if lane in ('circle-mask', 'nice-circle'):
         r, cx, cy = case['r'], case['cx'], case['cy']
-        reg = CirclePixelRegion(PixCoord(cx, cy), r)
+        cx, cy, ctor_c, meta = typed_centre(case, cx, cy, obs)
+        reg = CirclePixelRegion(ctor_c, r, meta=meta)
         if case['rs'] % 3 == 0:
             # an earlier, equal request whose result the caller edited in place must not influence this one
-            first = CirclePixelRegion(PixCoord(cx, cy), r).to_mask(mode='exact')
+            first = CirclePixelRegion(ctor_c, r).to_mask(mode='exact')
             if np.asarray(first.data).flags.writeable:
                 np.asarray(first.data)[...] = 0.5
             obs.count('result-edited-then-requested-again')
@@ -390,9 +411,10 @@ def run_case(case, obs):
             ang = case['theta'] * u.rad if case['unit'] == 'rad' else _deg(case['theta']) * u.deg
         th = float(ang.to_value(u.rad))
         cx, cy = case['cx'], case['cy']
-        reg = EllipsePixelRegion(PixCoord(cx, cy), 2 * a, 2 * b, ang)
+        cx, cy, ctor_c, meta = typed_centre(case, cx, cy, obs)
+        reg = EllipsePixelRegion(ctor_c, 2 * a, 2 * b, ang, meta=meta)
         if case['rs'] % 3 == 0:
-            first = EllipsePixelRegion(PixCoord(cx, cy), 2 * a, 2 * b, ang).to_mask(mode='exact')
+            first = EllipsePixelRegion(ctor_c, 2 * a, 2 * b, ang).to_mask(mode='exact')
             if np.asarray(first.data).flags.writeable:
                 np.asarray(first.data)[...] = 0.5
             obs.count('result-edited-then-requested-again')
